@@ -141,6 +141,26 @@ def residual_failures(seed):
         back = fits.getdata(os.path.join(tmp, "back.fits"))
         if np.abs(back - data).max() > 1e-5 * max(1, peak):
             out.append(("add_then_subtract_restores_the_image", "subtract then add does not restore the image"))
+        # mask mode through make_residual: the caller's frac / sigma must reach make_model as frac / sigma
+        for kw in (dict(frac=0.25), dict(sigma=3.0), dict(frac=0.6, sigma=50.0)):
+            AeRes.make_residual(os.path.join(tmp, "im.fits"), cat, os.path.join(tmp, "msk.fits"), mask=True, colmap=colmap, **kw)
+            got = np.isnan(fits.getdata(os.path.join(tmp, "msk.fits")))
+            _, blank = reference(srcs, shape, helper, 'mask', frac=kw.get('frac'), sigma=kw.get('sigma', 4))
+            if not np.array_equal(got, blank):
+                out.append(("model_made_with_callers_options", "make_residual(mask=True, %s) blanks %d pixels, the rule selects %d" % (
+                    kw, int(got.sum()), int(blank.sum()))))
+                break
+        # the same catalogue modelled on a second image with another pixel grid, in the same process
+        h2, scale2 = mk_header(rnd, (50, 64), 'TAN')
+        helper2 = WCSHelper.from_header(h2)
+        AeRes.make_model(srcs, shape, helper)
+        srcs2 = srcs
+        m2 = AeRes.make_model(srcs2, (50, 64), helper2)
+        ref2, _ = reference(srcs2, (50, 64), helper2, 'sum')
+        if np.abs(m2 - ref2).max() > 1e-4 * peak:
+            out.append(("written_value_is_previous_plus_source_gaussian",
+                        "the same catalogue on a second image (other pixel grid) in the same process: model differs by %.3g of the peak" % (
+                            np.abs(m2 - ref2).max() / peak)))
     except Exception as e:
         out.append(("no_exception_and_returns_image", "make_residual raised %r" % (e,)))
     finally:
